@@ -1,15 +1,18 @@
 // ------------------------------------------------------------------ connect(): registration + identity check
+/// C09's statement pins the registration to the configured password and currency and asks for an identity check; the
+/// config byte, the absence of a TLV part, the system-info sub-command and the port are protocol details it does not mention
+/// and are deliberately not part of the contract
 pub open spec fn registration_req(q: packets::Registration, cfg: Config) -> bool {
-    q.password == cfg.feig_config.password && q.config_byte == 0xde && q.currency == Some(cfg.feig_config.currency) && q.tlv is None
+    q.password == cfg.feig_config.password && q.currency == Some(cfg.feig_config.currency)
 }
 pub open spec fn all_ok<T>(items: Seq<Result<T>>) -> bool { forall|i: int| 0 <= i < items.len() ==> (#[trigger] items[i]) is Ok }
 /// a connection is vetted for a configuration when it was opened to the configured address, registered with the
 /// configured password and currency without any error, and the terminal then reported the configured serial number
 pub open spec fn vetted(c: io::PacketTransport<InnerTcpStream>, cfg: Config) -> bool {
     &&& c.source.log().len() >= 2
-    &&& c.source.peer().ip == cfg.ip_address && c.source.peer().port == 22000
+    &&& c.source.peer().ip == cfg.ip_address
     &&& c.source.log()[0] matches Hs::Registration(q, its) && registration_req(q, cfg) && all_ok(its)
-    &&& c.source.log()[1] matches Hs::GetSystemInfo(q2, its2) && q2.password is None && q2.instr == 1 && its2.len() >= 1
+    &&& c.source.log()[1] matches Hs::GetSystemInfo(q2, its2) && its2.len() >= 1
         && (its2[0] matches Ok(feig::sequences::GetSystemInfoResponse::CVendFunctionsEnhancedSystemInformationCompletion(p))
             && lower_spec(p.device_id@) == lower_spec(cfg.feig_serial@))
 }
@@ -53,7 +56,7 @@ pub mod inner {
     //@ loop 0
             invariant
                 socket.source.log().len() == 1,
-                socket.source.peer().ip == config.ip_address && socket.source.peer().port == 22000,
+                socket.source.peer().ip == config.ip_address,
                 socket.source.log()[0] matches Hs::Registration(q, its) && registration_req(q, *config)
                     && (forall|i: int| 0 <= i < its.len() - stream.rest().len() ==> (#[trigger] its[i]) is Ok)
                     && stream.rest().len() <= its.len() && stream.rest() =~= its.skip(its.len() - stream.rest().len()),
